@@ -69,24 +69,38 @@ Proof.
   injection H as -> H. injection L as L. destruct (IH b L H) as [-> ->]. auto.
 Qed.
 
+Lemma nth_skipn' {A} (l : list A) k n d : nth n (skipn k l) d = nth (k + n) l d.
+Proof.
+  revert l. induction k as [|k IH]; intros l; [reflexivity|]. destruct l as [|x l]; simpl.
+  - destruct n; reflexivity.
+  - apply IH.
+Qed.
+
+Lemma skipn_skipn' {A} (l : list A) a b : skipn a (skipn b l) = skipn (b + a) l.
+Proof.
+  revert l. induction b as [|b IH]; intros l; [reflexivity|]. destruct l as [|x l]; simpl.
+  - destruct a; reflexivity.
+  - apply IH.
+Qed.
+
 Lemma entry_of_inv m key ts eid : entry_of m key = Some (ts, eid) ->
   key = m ++ [0%N] ++ ts ++ [0%N] ++ eid /\ length ts = 4%nat /\ length eid = 32%nat.
 Proof.
   unfold entry_of. destruct (Nat.eqb (length key) (length m + 38)) eqn:E1; [|discriminate].
-  destruct (bytes_eqb (firstn (length m) key) m) eqn:E2; [|discriminate].
+  destruct (KVM.ScanSpec.bytes_eqb (firstn (length m) key) m) eqn:E2; [|discriminate].
   destruct (N.eqb (nth (length m) key 1%N) 0) eqn:E3; [|discriminate].
   destruct (N.eqb (nth (length m + 5) key 1%N) 0) eqn:E4; [|discriminate].
-  simpl. intros H. injection H as <- <-.
+  cbn [andb]. intros H. injection H as <- <-.
   apply Nat.eqb_eq in E1. apply bytes_eqb_eq in E2. apply N.eqb_eq in E3. apply N.eqb_eq in E4.
   rewrite <- (firstn_skipn (length m) key) at 1. rewrite E2.
   set (r := skipn (length m) key).
   assert (Lr : length r = 38%nat) by (unfold r; rewrite skipn_length; lia).
   assert (N0 : nth 0 r 1%N = 0%N).
-  { unfold r. rewrite nth_skipn. rewrite Nat.add_0_r. exact E3. }
+  { unfold r. rewrite nth_skipn'. rewrite Nat.add_0_r. exact E3. }
   assert (N5 : nth 5 r 1%N = 0%N).
-  { unfold r. rewrite nth_skipn. exact E4. }
-  assert (S1 : skipn (length m + 1) key = skipn 1 r) by (unfold r; rewrite skipn_skipn; f_equal; lia).
-  assert (S6 : skipn (length m + 6) key = skipn 6 r) by (unfold r; rewrite skipn_skipn; f_equal; lia).
+  { unfold r. rewrite nth_skipn'. exact E4. }
+  assert (S1 : skipn (length m + 1) key = skipn 1 r) by (unfold r; rewrite skipn_skipn'; reflexivity).
+  assert (S6 : skipn (length m + 6) key = skipn 6 r) by (unfold r; rewrite skipn_skipn'; reflexivity).
   rewrite S1, S6.
   do 39 (destruct r as [|? r]; [simpl in Lr; try lia|]); [|simpl in Lr; lia].
   simpl in N0, N5. subst. simpl. split; [reflexivity|]. split; reflexivity.
@@ -173,7 +187,7 @@ Proof.
     + unfold tombstone in T. injection T as -> _. unfold sec_prefix in P. lia.
     + exists pk, e, es. auto.
   - destruct (coh_prim d C _ _ G) as [Pk _]. unfold primary_key in Pk. destruct (id_bytes e); [|discriminate].
-    simpl in Pk. unfold primary_key_of in Pk. injection Pk as -> _. unfold sec_prefix in P. lia.
+    simpl in Pk. unfold primary_key_of in Pk. injection Pk as Hp _. subst p. unfold sec_prefix in P. lia.
 Qed.
 
 Hypothesis scan_ok : ScanOk.
@@ -198,11 +212,11 @@ Proof.
   destruct (be4 until) as [ub|] eqn:Eu; [|reflexivity].
   cbn [flat_map]. split; [eauto|]. intros eid. rewrite app_nil_r. rewrite spec_block_In. split.
   - intros [key [ts [Hk [E L]]]]. destruct (entry_of_inv _ _ _ _ E) as [Dk [Lts Leid]].
-    destruct (coh_entry_owner d key 4%N (pkb ++ [0%N] ++ kb ++ [0%N] ++ ts ++ [0%N] ++ eid) C Hk) as [pk [e [es [G [S I]]]]].
+    assert (Hkey : key = 4%N :: (pkb ++ [0%N] ++ kb ++ [0%N] ++ ts ++ [0%N] ++ eid)).
     { rewrite Dk. unfold ak_key. simpl. rewrite <- !app_assoc. reflexivity. }
+    destruct (coh_entry_owner d key 4%N _ C Hk Hkey) as [pk [e [es [G [S I]]]]].
     { unfold sec_prefix. auto. }
-    destruct (sec_key_of_index e es key 4%N _ S I) as [i [idb [ct [km [Hi [Hp [Hid [Hct [Hc Ke]]]]]]]]].
-    { rewrite Dk. unfold ak_key. simpl. rewrite <- !app_assoc. reflexivity. }
+    destruct (sec_key_of_index e es key 4%N _ S I Hkey) as [i [idb [ct [km [Hi [Hp [Hid [Hct [Hc Ke]]]]]]]]].
     assert (i = IxAuthorKinds) as ->.
     { simpl in Hi. destruct Hi as [<-|[<-|[<-|[<-|[<-|[]]]]]]; simpl in Hp; try discriminate. reflexivity. }
     destruct (stored_fields d pk e C G) as [idb' [pkb' [kb' [ct' [es' [Hid' [Lid' [-> [Epk' [Lpk' [Xpk' [Ekb' [Ect' _]]]]]]]]]]]]].
@@ -253,11 +267,11 @@ Proof.
   destruct (be4 until) as [ub|] eqn:Eu; [|reflexivity].
   cbn [flat_map]. split; [eauto|]. intros eid. rewrite app_nil_r. rewrite spec_block_In. split.
   - intros [key [ts [Hk [E L]]]]. destruct (entry_of_inv _ _ _ _ E) as [Dk [Lts Leid]].
-    destruct (coh_entry_owner d key 3%N (pkb ++ [0%N] ++ ts ++ [0%N] ++ eid) C Hk) as [pk [e [es [G [S I]]]]].
+    assert (Hkey : key = 3%N :: (pkb ++ [0%N] ++ ts ++ [0%N] ++ eid)).
     { rewrite Dk. reflexivity. }
+    destruct (coh_entry_owner d key 3%N _ C Hk Hkey) as [pk [e [es [G [S I]]]]].
     { unfold sec_prefix. auto. }
-    destruct (sec_key_of_index e es key 3%N _ S I) as [i [idb [ct [km [Hi [Hp [Hid [Hct [Hc Ke]]]]]]]]].
-    { rewrite Dk. reflexivity. }
+    destruct (sec_key_of_index e es key 3%N _ S I Hkey) as [i [idb [ct [km [Hi [Hp [Hid [Hct [Hc Ke]]]]]]]]].
     assert (i = IxAuthors) as ->.
     { simpl in Hi. destruct Hi as [<-|[<-|[<-|[<-|[<-|[]]]]]]; simpl in Hp; try discriminate. reflexivity. }
     destruct (stored_fields d pk e C G) as [idb' [pkb' [kb' [ct' [es' [Hid' [Lid' [-> [Epk' [Lpk' [Xpk' [Ekb' [Ect' _]]]]]]]]]]]]].
@@ -265,7 +279,7 @@ Proof.
     simpl in Hc. destruct Hc as [Hc|[]]. unfold to_key in Hc. rewrite (bytes_from_hex_strict _ _ Epk') in Hc.
     injection Hc as <-.
     rewrite Dk in Ke. unfold entry_key in Ke.
-    assert (L1 : length (au_key pkb) = length (3%N :: pkb')) by (unfold au_key; simpl; congruence).
+    assert (L1 : length (au_key pkb) = length (3%N :: pkb')) by (unfold au_key; simpl; unfold bytes, byte in *; lia).
     destruct (app_inj_len _ _ _ _ L1 Ke) as [K1 K2].
     injection K2 as K2.
     assert (L2 : length ts = length ct) by (rewrite Lts, (be4_len _ _ Hct); reflexivity).
